@@ -72,6 +72,22 @@ def main():
             res['result'] = describe_result(r)
         except Exception as ex:
             res['error'] = type(ex).__name__; res['error_text'] = str(ex)[:200]
+        # the same conversion through the graph factory and through the top-level convert()
+        ename = 'incident_energy' if g['mode'] == 'direct' else 'final_energy'
+        try:
+            from scippneutron.conversion.graph import tof as gtof
+            fac = gtof.direct_inelastic if g['mode'] == 'direct' else gtof.indirect_inelastic
+            fn = fac('tof')['energy_transfer']
+            res['result_graph'] = describe_result(fn(**{'tof': tofv, 'L1': L1, 'L2': L2, ename: E}))
+        except Exception as ex:
+            res['error_graph'] = type(ex).__name__
+        try:
+            import scippneutron as scn
+            da = sc.DataArray(sc.ones(sizes={'t': len(tofv)}), coords={'tof': tofv, 'L1': L1, 'L2': L2, ename: E})
+            conv = scn.convert(da, origin='tof', target='energy_transfer', scatter=True)
+            res['result_convert'] = describe_result(conv.coords['energy_transfer'])
+        except Exception as ex:
+            res['error_convert'] = type(ex).__name__ + ': ' + str(ex)[:150]
         res['inputs_unchanged'] = all(sc.identical(env[k], snap[k], equal_nan=True) for k in env)
         res['expected_si'] = g['Ei'] - g['Ef']
         res['si'] = {k: g[k] for k in ('Ei', 'Ef', 'L1', 'L2')}
